@@ -60,6 +60,15 @@ CHECKS = {
    note="Bounded to the enumerated matrix. Two genuine -O2 violations (copy elision) are recorded as known findings.",
    technique="TLA+ executable semantics + TLC trace validation of compiled-program observations at all optimisation levels",
    ref="§4 C08"),
+ "C12": dict(
+   text="Text values are sequences of code points in DDPSem; Utf8.tla states the encoding. (a) every Text built from 6 initial literals by every sequence of <=2 (quick, half of "
+        "the length-2 ones) / <=3 (thorough, sampled) production steps - concatenation on both sides, slices, in-place replacement by shorter/equal/longer characters, through a "
+        "Referenz, copies - followed by all observers (length, for-each with index, every index, both open slices, equality in both orders with a character-wise rebuilt text) is "
+        "compiled, run and validated by TLC against the semantics; (b) a C driver linked against the tree's ASan-built libddpruntime.a records encode/decode/index/replace/equal "
+        "for code points (quick: boundaries + strided sample, thorough: all 1 112 064 scalar values) and TLC validates each record against Utf8.tla.",
+   note="U+0000 is outside (NUL-terminated texts). The byte-level ddpstring{str,cap} representation is observed through behaviour and ASan only.",
+   technique="TLA+ executable semantics + Utf8 specification, TLC trace validation of compiled programs and of direct runtime calls",
+   ref="§4 C12"),
 }
 PENDING = {}
 
